@@ -48,9 +48,9 @@ where
 {
     let bucket_size = downsampled.config.bucket_size as u64;
     let in_source = source.len();
-    let mut accounted_for = downsampled.data.len() * bucket_size;
+    let mut accounted_for = downsampled.data.len().saturating_mul(bucket_size);
 
-    if accounted_for >= in_source + bucket_size {
+    if accounted_for >= in_source.saturating_add(bucket_size) {
         warn!("Repairing downsampled data cache, it is ahead of the source");
         downsampled
             .data
